@@ -24,7 +24,9 @@ const RELS: &[&str] = &["libc6 (>= 2.14), libgcc1", "a | b (<< 1:2.0~rc1), c [am
 const URLS: &[&str] = &["https://example.com/", "http://bugs.debian.org/510219", "https://salsa.debian.org/x/y"];
 const PRIO: &[&str] = &["optional", "required", "extra"];
 const YESNO: &[&str] = &["yes", "no"];
-const TRUEFALSE: &[&str] = &["true", "false"];
+// yes/no fields are written yes/no in every Debian format; the lossy Release type prints true/false (pinned by a
+// unit test of the repository) and reads both
+const FLAG: &[&str] = &["yes", "no", "true", "false"];
 const VERSIONS: &[&str] = &["1.0-1", "2:1.2.3~rc1-1+b2", "0.9"];
 const NUMS: &[&str] = &["0", "3524", "4294967295"];
 const WORDS: &[&str] = &["main contrib non-free", "amd64", "stable"];
@@ -84,9 +86,9 @@ pub static APT_RELEASE: &[FieldSpec] = &[
     f("Suite", true, &["focal", "unstable"], None),
     f("Version", true, &["20.04", "12"], None),
     f("Date", true, DATE, None),
-    f("NotAutomatic", true, TRUEFALSE, Some("maybe")),
-    f("ButAutomaticUpgrades", true, TRUEFALSE, Some("1")),
-    f("Acquire-By-Hash", true, TRUEFALSE, Some("")),
+    f("NotAutomatic", true, FLAG, Some("maybe")),
+    f("ButAutomaticUpgrades", true, FLAG, Some("1")),
+    f("Acquire-By-Hash", true, FLAG, Some("")),
 ];
 
 pub static APT_SOURCE: &[FieldSpec] = &[
@@ -102,7 +104,7 @@ pub static APT_SOURCE: &[FieldSpec] = &[
     f("Build-Conflicts-Indep", false, RELS, Some("a <")),
     f("Standards-Version", false, &["3.9.3"], None),
     f("Homepage", false, &["http://arthurdejong.org/cvsd/"], None),
-    f("Autobuild", false, TRUEFALSE, Some("perhaps")),
+    f("Autobuild", false, YESNO, Some("true")),
     f("Testsuite", false, &["autopkgtest"], None),
     f("Vcs-Browser", false, &["http://arthurdejong.org/viewvc/cvsd/"], None),
     f("Vcs-Git", false, &["https://e.org/x.git"], None),
@@ -139,7 +141,7 @@ pub static APT_PACKAGE: &[FieldSpec] = &[
     f("Homepage", false, &["https://wiki.debian.org/Apt"], None),
     f("Priority", false, PRIO, Some("high")),
     f("Section", false, &["admin", ""], None),
-    f("Essential", false, TRUEFALSE, Some("essential")),
+    f("Essential", false, YESNO, Some("true")),
     f("Tag", false, &["admin::package-management, role::program", ""], None),
     f("Size", false, NUMS, Some("12k")),
     f("MD5sum", false, &["d41d8cd98f00b204e9800998ecf8427e"], None),
@@ -218,10 +220,10 @@ pub static APT_SOURCES: &[FieldSpec] = &[
     f("Targets", false, &["Packages"], None),
     f("PDiffs", false, YESNO, Some("maybe")),
     f("By-Hash", false, &["yes", "no", "force"], Some("true")),
-    f("Allow-Insecure", false, TRUEFALSE, Some("maybe")),
-    f("Allow-Weak", false, TRUEFALSE, Some("maybe")),
-    f("Allow-Downgrade-To-Insecure", false, TRUEFALSE, Some("maybe")),
-    f("Trusted", false, TRUEFALSE, Some("maybe")),
+    f("Allow-Insecure", false, YESNO, Some("maybe")),
+    f("Allow-Weak", false, YESNO, Some("maybe")),
+    f("Allow-Downgrade-To-Insecure", false, YESNO, Some("maybe")),
+    f("Trusted", false, YESNO, Some("false")),
     f("Signed-By", false, &["/usr/share/keyrings/ubuntu-archive-keyring.gpg", "\n-----BEGIN PGP PUBLIC KEY BLOCK-----\n.\nmDMEY865UxYJ\n=5NZE\n-----END PGP PUBLIC KEY BLOCK-----"], None),
     f("X-Repolib-Name", false, &["Pop_OS System Sources", ""], None),
     f("Description", false, MULTI, None),
@@ -322,4 +324,17 @@ pub fn items_lossy(p: &lossy::Paragraph) -> Vec<(String, String)> {
 }
 pub fn items_lossless(p: &Paragraph) -> Vec<(String, String)> {
     p.items().collect()
+}
+
+/// The text a typed value prints for a field value read from a file, where the type has a spelling of its own:
+/// the lossy Release type reads yes/no (the file format) and true/false, and prints true/false.
+pub fn canon_text(kind: &str, field: &str, v: &str) -> String {
+    if kind.ends_with("apt::Release") && matches!(field, "NotAutomatic" | "ButAutomaticUpgrades" | "Acquire-By-Hash") {
+        return match v.trim() {
+            "yes" => "true".to_string(),
+            "no" => "false".to_string(),
+            o => o.to_string(),
+        };
+    }
+    v.to_string()
 }
